@@ -880,6 +880,98 @@ def observe(kinds):
     return f
 
 
+INDENT_SPELLINGS = ["2", "0", "02", "007", "10", " 2", "2 ", "  4  ", "\t2\n", "+2", "-1", "+0", "1_0", "1_0_0", "", " ", "abc", "2.0", "1e1",
+                    "0x2", "+", "-", "- 1", "_1", "1_", "1__0", "2 2", "two", "\t", "None"]
+DESCRIPTOR_SPELLINGS = ["true", "True", "TRUE", "1", "false", "False", "FALSE", "0", "", "yes", "no", "on", "off", " true", "2"]
+
+
+def ctext_any(t: str) -> str:
+    if all(32 <= ord(c) < 127 and c != '"' for c in t):
+        return T(t)
+    return "[" + "; ".join("%d%%N" % ord(c) for c in t) + "]"
+
+
+def observe_options():
+    """behavioural table of the writer options that arrive as text (constructor argument or URL query)"""
+    import json
+    import os
+    import shutil
+
+    from flow.record import RecordDescriptor
+    from flow.record.adapter import jsonfile
+    import datetime as pydt
+    ts = pydt.datetime(2001, 2, 3, 4, 5, 6, 7, tzinfo=pydt.timezone.utc)
+    D = RecordDescriptor("verif/opt", [("string", "s"), ("varint[]", "l")])
+    r = D(s="x", l=[1, 2], _generated=ts)
+    tmp = _probe_dir()
+    path = os.path.join(tmp, "o.json")
+
+    def text_for(**kw):
+        w = jsonfile.JsonfileWriter(path, **kw)
+        try:
+            w.write(r)
+            w.flush()
+        finally:
+            w.close()
+        with open(path, newline="") as fh:
+            return fh.read()
+    try:
+        plain = text_for()
+        table = []
+        for sp in INDENT_SPELLINGS:
+            try:
+                w = jsonfile.JsonfileWriter(path, indent=sp)
+            except (ValueError, TypeError):
+                table.append((sp, "IndRejected"))
+                continue
+            w.close()
+            try:
+                got = text_for(indent=sp)
+            except Exception as e:  # noqa
+                raise Unsupported("JsonfileWriter(indent=%r) is constructed but writing raises %s" % (sp, type(e).__name__))
+            entry = None
+            if got == plain:
+                entry = "IndNone"
+            else:
+                try:
+                    k = int(sp)
+                except ValueError:
+                    k = None
+                if k is not None and got == text_for(indent=k):
+                    entry = "(IndLevel (%d)%%Z)" % k
+                else:
+                    for k in range(0, 130):
+                        if got == text_for(indent=k):
+                            entry = "(IndLevel (%d)%%Z)" % k
+                            break
+            if entry is None:
+                # the text inserted before the first member of the first document
+                lines = got.split("\n")
+                second = lines[1] if len(lines) > 1 else ""
+                cut = second.find('"')
+                entry = "(IndText %s)" % ctext_any(second[:cut] if cut >= 0 else second)
+            table.append((sp, entry))
+        dtable = []
+        on_text = text_for(descriptors=True)
+        off_text = text_for(descriptors=False)
+        if on_text == off_text:
+            raise Unsupported("descriptors=True and descriptors=False give the same output")
+        for sp in DESCRIPTOR_SPELLINGS:
+            got = text_for(descriptors=sp)
+            if got == on_text:
+                dtable.append((sp, True))
+            elif got == off_text:
+                dtable.append((sp, False))
+            else:
+                raise Unsupported("descriptors=%r gives neither the descriptors=True nor the descriptors=False output" % sp)
+        for canon, want in (("true", True), ("false", False)):
+            if dict(dtable)[canon] != want:
+                raise Unsupported("descriptors=%r no longer means %r" % (canon, want))
+        return table, dtable
+    finally:
+        shutil.rmtree(tmp, ignore_errors=True)
+
+
 def _recognised():
     """the source recognisers, each on its own: (facts, notes)"""
     rec, notes = {}, []
@@ -967,6 +1059,12 @@ def gen_json():
     out += "  reserved := %s;\n" % clist(pair(T(t), T(n)) for t, n in f["reserved"])
     out += "  version := %d%%Z;\n  version_key := %s; generated_key := %s;\n" % (f["version"], T("_version"), T("_generated"))
     out += "  py_keywords := %s;\n  kw_skip_defaults := %s |}.\n" % (clist(T(k) for k in f["keywords"]), cbool(f["kw_skip_defaults"]))
+    itable, dtable = observe_options()
+    out += "\n(* JsonfileWriter's text options as they BEHAVE now (observed): what an `indent` text becomes, which spellings of\n"
+    out += "   `descriptors` switch the descriptor documents on *)\n"
+    out += "Definition json_options : jopts := {|\n"
+    out += "  indent_table := %s;\n" % clist(pair(ctext_any(sp), e) for sp, e in itable)
+    out += "  descriptors_table := %s |}.\n" % clist(pair(ctext_any(sp), cbool(b)) for sp, b in dtable)
     write_if_changed(GEN / "Gen_json.v", out)
 
 
